@@ -82,3 +82,41 @@ Proof.
   rewrite be4_eq. split; [reflexivity|]. unfold apply_writes. cbn [app fold_left fst snd]. nat_idx. cbn [repeat set_nth firstn map app].
   bytes_eq.
 Qed.
+
+(* ------------------------------------------------------------------ C05: VarLong.WriteToBytes (counted loop) *)
+Section VarLongEnc.
+Local Arguments N.land : simpl never.
+Local Arguments N.lor : simpl never.
+Local Arguments N.shiftr : simpl never.
+Local Arguments N.shiftl : simpl never.
+Local Arguments N.modulo : simpl never.
+Local Arguments Z.land : simpl never.
+Local Arguments Z.lor : simpl never.
+Local Arguments Z.shiftr : simpl never.
+Local Arguments Z.modulo : simpl never.
+Local Arguments Z.of_N : simpl never.
+Local Arguments wrap_u : simpl never.
+Local Arguments u64 : simpl never.
+
+Ltac nat_idx10 := nat_idx; change (Z.to_nat (Z.of_N 6)) with 6%nat; change (Z.to_nat (Z.of_N 7)) with 7%nat;
+  change (Z.to_nat (Z.of_N 8)) with 8%nat; change (Z.to_nat (Z.of_N 9)) with 9%nat; change (Z.to_nat (Z.of_N 10)) with 10%nat.
+
+Lemma g_mod y : ((N.lor (N.land y 127) 128) mod 2 ^ 8 = N.lor (N.land y 127) 128)%N.
+Proof. apply N.mod_small. apply g_lt. Qed.
+
+Lemma tie_VarLong_WriteToBytes v :
+  let '(n, ws) := packet_VarLong_WriteToBytes v in
+  n = Z.of_N (C05.len64 v) /\
+  firstn (Z.to_nat n) (apply_writes ws (repeat 0 10)) = map Z.of_N (C05.write64 v).
+Proof.
+  unfold packet_VarLong_WriteToBytes, C05.write64. rewrite tie_VarLong_Len. unfold C05.len64.
+  change (Z.to_N packet_MaxVarLongLen) with 10%N.
+  rewrite (wrap_u_as_N 64 v) by lia. change (Z.to_N (v mod 2 ^ 64)) with (u64 v).
+  set (num := u64 v). clearbody num.
+  repeat match goal with |- context [if (v <? ?c) then _ else _] => destruct (v <? c) end.
+  all: cbn; split; [reflexivity|].
+  all: z_lits; z_to_n; rewrite ?g_mod.
+  all: unfold apply_writes; cbn [app fold_left fst snd]; nat_idx10; cbn [repeat set_nth firstn map].
+  all: change (2 ^ 8)%N with 256%N; reflexivity.
+Qed.
+End VarLongEnc.
